@@ -458,11 +458,16 @@ def mc_stage(pid, tier, seed, key):
         if os.path.exists(marker):
             results.append(json.load(open(marker)))
             continue
-        rc, out, wall = tlc(spec, cfg, wd, workers=c.get("workers", 8), timeout=c.get("timeout", 1500),
-                            extra=["-coverage", "1"] if c.get("coverage", False) else [], heap=c.get("heap", "12g"))
+        sim = c.get("simulate", 0)
+        extra = ["-simulate", "num=%d" % sim, "-depth", "400", "-seed", str(seed + 11)] if sim else (["-coverage", "1"] if c.get("coverage", False) else [])
+        rc, out, wall = tlc(spec, cfg, wd, workers=c.get("workers", 8), timeout=c.get("timeout", 1500), extra=extra, heap=c.get("heap", "12g"))
         states, trans = mc_stats(out)
         ok = "Model checking completed. No error has been found." in out
-        r = {"cfg": cfg, "spec": spec, "ok": ok, "states": states, "transitions": trans, "wall": wall, "rc": rc,
+        if sim:
+            m2 = re.search(r"The number of states generated: (\d+)", out)
+            states = trans = int(m2.group(1)) if m2 else 0
+            ok = ("is violated" not in out) and ("Error:" not in out) and states > 0 and rc != -9
+        r = {"cfg": cfg, "spec": spec, "ok": ok, "simulated_behaviours": sim, "states": states, "transitions": trans, "wall": wall, "rc": rc,
              "expect": c.get("expect", "ok"), "tail": out[-1500:] if not ok else ""}
         m = re.search(r"Invariant (\w+) is violated", out)
         if m:
@@ -547,7 +552,7 @@ def check(pid, tier, seed):
             "evaluations": max(1, traces), "distinct_nontrivial": nt[1], "distinct_executions": nt[0],
             "rule": nt[2] or spec.get("rule", ""),
             "samples": (samples + nt[3])[:3] or [{"note": "no sample"}],
-            "mc_runs": [{k: r[k] for k in ("cfg", "states", "transitions", "wall", "ok", "expect")} for r in mc],
+            "mc_runs": [{k: r.get(k) for k in ("cfg", "states", "transitions", "wall", "ok", "expect", "simulated_behaviours")} for r in mc],
             "known_finding_hits": len(known_hits), "exhaustive": False,
         }
         coverage.update(cov)
